@@ -170,28 +170,33 @@ def check_map_zip(run, cx, cfg):
                 p = ps[0]
                 clo = p['ret'][2][0]
                 idx = ('idx',)
-                cps = returning(cx.closure_paths(clo, p, [idx], inline=inl, stop_trait_methods=FRAME_SAMPLE_METHODS if inl else ())) if clo[0] == 'agg' else []
-                if len(cps) != 1:
-                    bad = 'closure is not straight-line'
-                else:
-                    cp = cps[0]
-                    cm = [(k, e) for k, e in call_events(cp) if is_call(e, FNMUT, 'call_mut')]
-                    if len(cm) != 1 or cp['ret'] != ('ret', cm[0][0]):
-                        bad = 'the user function must be applied exactly once per channel and its result returned'
+                # (a private free helper inside the closure -- `read_channel(&frame, i)` -- is seen through on a second attempt)
+                for inl2 in ([True] if inl else [False, True]):
+                    bad = None
+                    cps = returning(cx.closure_paths(clo, p, [idx], inline=inl2, stop_trait_methods=FRAME_SAMPLE_METHODS if inl2 else ())) if clo[0] == 'agg' else []
+                    if len(cps) != 1:
+                        bad = 'closure is not straight-line'
                     else:
-                        args = cm[0][1]['args'][1]
-                        operands = [('param', i + 1) for i in range(nops)]
-                        if not (args[0] == 'agg' and len(args[2]) == nops):
-                            bad = 'wrong number of operands'
+                        cp = cps[0]
+                        cm = [(k, e) for k, e in call_events(cp) if is_call(e, FNMUT, 'call_mut')]
+                        if len(cm) != 1 or cp['ret'] != ('ret', cm[0][0]):
+                            bad = 'the user function must be applied exactly once per channel and its result returned'
                         else:
-                            for a, opnd in zip(args[2], operands):
-                                a = strip_epoch(a)
-                                # *channel_unchecked(&operand, idx)
-                                ok = (a[0] == 'deref' and a[1][0] == 'app' and a[1][1].endswith(('Frame>::channel_unchecked', 'Frame::channel_unchecked')) and a[1][2][1] == idx
-                                      and a[1][2][0][0] == 'ref' and strip_epoch(deref(cp, a[1][2][0])) == opnd)
-                                if not ok:
-                                    bad = 'operand %s must be channel `idx` of %s with idx the from_fn parameter itself (is %s)' % (operands.index(opnd), short(opnd), short(a))
-                                    break
+                            args = cm[0][1]['args'][1]
+                            operands = [('param', i + 1) for i in range(nops)]
+                            if not (args[0] == 'agg' and len(args[2]) == nops):
+                                bad = 'wrong number of operands'
+                            else:
+                                for a, opnd in zip(args[2], operands):
+                                    a = strip_epoch(a)
+                                    # *channel_unchecked(&operand, idx)
+                                    ok = (a[0] == 'deref' and a[1][0] == 'app' and a[1][1].endswith(('Frame>::channel_unchecked', 'Frame::channel_unchecked')) and a[1][2][1] == idx
+                                          and a[1][2][0][0] == 'ref' and strip_epoch(deref(cp, a[1][2][0])) == opnd)
+                                    if not ok:
+                                        bad = 'operand %s must be channel `idx` of %s with idx the from_fn parameter itself (is %s)' % (operands.index(opnd), short(opnd), short(a))
+                                        break
+                    if bad is None:
+                        break
             run.check(bad is None, 'frame.map-wiring', fn, cfg, bad or '', where=where(body), sample='from_fn(|i| f(*self.channel_unchecked(i)%s))' % (', *other.channel_unchecked(i)' if nops == 2 else '') if ty in ('[S; N]', 'u8') else None)
     run.floor('frame.map-wiring', 'map/zip_map bodies (%s)' % cfg, n, 30)
 
